@@ -1,4 +1,5 @@
 import ConcVerif.Proof.LockFam
+import ConcVerif.Proof.LockFamLive
 /-! # C01 — exclusive handles and whole-object operations are mutually exclusive
 
 Statements are over `Reachable en cap s`: every accepted event sequence of the wrapper model in
@@ -202,5 +203,141 @@ def witness : List (Tid × Ev) :=
 example : ∃ s, Reachable true false s ∧ s.held 1 = .X ∧ (s.loc 1).pc = .sess ∧ (s.loc 2).pc = .acq .X .block ∧
     s.val = 1 ∧ (step s 2 (.lk .X .block true)) = none ∧ (step s 2 (.rd 1)) = none :=
   ⟨_, ⟨witness, rfl⟩, by decide, by decide, by decide, by decide, by decide, by decide⟩
+
+/-! ## Liveness: no deadlock, no leaked lock, no livelock — for every scheduler
+
+"Every blocked acquirer proceeds once the current holder releases" is proved without any fairness
+assumption, in the vocabulary of `Proof/LockFamLive.lean`:
+* environment events (`isEnv`) = the CLIENT's decisions: the call of an operation, the handle operation it
+  chooses to perform while it keeps a handle (`hbegin`: destroy / unlock / move), the accesses and throws of
+  client code (`rd`/`wr`/`uth` through a held handle or as the body of a whole-object bracket) and the
+  end-of-run observation `final`; every other event is a step of the LIBRARY;
+* `ClientTurn s t`: thread `t` keeps a live handle between two handle operations, or its code runs as the
+  body of a whole-object bracket that is not complete; `Waiting s t`: `t` is inside a blocking
+  acquisition before its lock event; `Moves s t`: `t` has an enabled library step other than a lock
+  acquisition (nobody else can disable it); `LibEnabled s t`: some library step of `t` is enabled.
+
+* `C01_terminates` (no livelock): an execution that makes no environment event from some point on cannot be
+  infinite — every library step strictly lowers the summed rank, failed `try_lock`s and time-outs included.
+* `C01_progress_cases` (no deadlock, no leaked lock): in every reachable state either some thread `Moves`,
+  or the mutex is free and every waiting acquirer can take it now, or the mutex is held, EVERY holder is a
+  client whose move it is, and every other thread inside an operation is such a client or a waiting acquirer.
+* `C01_stuck_means_client_holds`, `C01_progress`, `C01_stuck_no_client_all_returned`: the same read as a
+  statement about states without enabled library step.
+What is NOT covered: an execution with infinitely many acquisitions by other threads in which the mutex
+(C++ mutexes are not fair) never picks one particular waiter. -/
+
+/-- no livelock: an execution which makes no environment event from step `N` on (threads drawn from any
+finite list `ts`) cannot be infinite; no assumption on the state at `N` or on the scheduler -/
+theorem C01_terminates (x : Live.Exec step) (N : Nat) (ts : List Tid) (hnd : ts.Nodup)
+    (hts : ∀ n, N ≤ n → x.who n ∈ ts) (hnc : ∀ n, N ≤ n → isEnv (x.ev n) = false) : False :=
+  Live.no_infinite_run ranked ts hnd x N trivial hts hnc
+
+/-- quantitative form: a trace with `c` environment events has at most `(total rank) + 5·c` steps -/
+theorem C01_bounded_run {s s' : St} (ts : List Tid) (hnd : ts.Nodup) {es : List (Tid × Ev)}
+    (hts : ∀ y ∈ es, y.1 ∈ ts) (hrun : runFrom step s es = some s') :
+    es.length + Live.total μ ts s' ≤ Live.total μ ts s + 5 * Live.calls isEnv es :=
+  Live.bounded_run ranked ts hnd trivial hts hrun
+
+/-- every thread of a reachable state is outside every operation, or has a library step nobody can
+disable, or it is the client's move there, or it waits in a blocking acquisition -/
+theorem C01_thread_cases {en cap : Bool} {s : St} (h : Reachable en cap s) (t : Tid) :
+    (s.loc t).pc = .idle ∨ Moves s t ∨ ClientTurn s t ∨ Waiting s t :=
+  thread_cases (inv_reachable h) t
+
+/-- a holder of the mutex (handle or bracket) is never blocked by anybody: it has a library step nobody
+can disable, or it is the client's move (and then the client has one: `C01_client_can_move`) -/
+theorem C01_holder_moves_or_client {en cap : Bool} {s : St} (h : Reachable en cap s) {t : Tid}
+    (hh : s.held t ≠ .none) : Moves s t ∨ ClientTurn s t :=
+  holder_cases (inv_reachable h) hh
+
+theorem C01_client_can_move {s : St} {t : Tid} (h : ClientTurn s t) :
+    ∃ e, isEnv e = true ∧ (step s t e).isSome = true := client_can_move h
+
+/-- when the mutex is free, every waiting acquirer can take it at once: a session on the side it asked
+for, a whole-object operation on the exclusive side and, if the mutex has one, on the shared side -/
+theorem C01_free_waiting_enabled {en cap : Bool} {s : St} (h : Reachable en cap s)
+    (hfree : s.excl = none ∧ s.shared = []) {t : Tid} (hw : Waiting s t) :
+    (∀ sd, (s.loc t).pc = .acq sd .block → (step s t (.lk (effSide s.capable sd) .block true)).isSome = true) ∧
+    (∀ w, (s.loc t).pc = .wCalled w → (step s t (.lk .X .block true)).isSome = true ∧
+      (s.capable = true → (step s t (.lk .S .block true)).isSome = true)) :=
+  free_waiting_enabled (inv_reachable h) hfree hw
+
+/-- **no deadlock, no leaked lock**: (1) some thread has a library step nobody can disable, or (2) the
+mutex is free and every thread inside an operation is a client whose move it is or a waiting acquirer
+that can take the mutex now, or (3) the mutex is held, every holder is a client whose move it is, and
+every thread inside an operation is such a client or a waiting acquirer -/
+theorem C01_progress_cases {en cap : Bool} {s : St} (h : Reachable en cap s) :
+    (∃ u, Moves s u) ∨
+    ((s.excl = none ∧ s.shared = []) ∧
+      ∀ t, (s.loc t).pc = .idle ∨ ClientTurn s t ∨ (Waiting s t ∧ LibEnabled s t)) ∨
+    ((∃ u, s.held u ≠ .none) ∧ (∀ u, s.held u ≠ .none → ClientTurn s u) ∧
+      ∀ t, (s.loc t).pc = .idle ∨ ClientTurn s t ∨ Waiting s t) :=
+  trichotomy (inv_reachable h)
+
+/-- a reachable state without enabled library step: nobody is inside an operation except clients whose
+move it is and acquirers waiting for a mutex that such a client holds (handle kept between operations, or
+its code running inside a bracket) — "no deadlock, no leaked lock" -/
+theorem C01_stuck_means_client_holds {en cap : Bool} {s : St} (h : Reachable en cap s)
+    (hstuck : ∀ u, ¬ LibEnabled s u) (t : Tid) (ht : (s.loc t).pc ≠ .idle) :
+    ClientTurn s t ∨ (Waiting s t ∧ ∃ u, u ≠ t ∧ s.held u ≠ .none ∧ ClientTurn s u) := by
+  have hi := inv_reachable h
+  rcases trichotomy hi with ⟨u, hm⟩ | ⟨_, hall⟩ | ⟨⟨u, hu⟩, hcl, hall⟩
+  · exact absurd hm.lib (hstuck u)
+  · rcases hall t with h1 | h1 | ⟨_, h1⟩
+    · exact absurd h1 ht
+    · exact Or.inl h1
+    · exact absurd h1 (hstuck t)
+  · rcases hall t with h1 | h1 | h1
+    · exact absurd h1 ht
+    · exact Or.inl h1
+    · refine Or.inr ⟨h1, u, ?_, hu, hcl u hu⟩
+      intro hut; subst hut
+      exact hu (h1.holds_none hi)
+
+/-- deadlock-freedom: if some thread is inside an operation, then some thread has an enabled library step,
+or it is the clients' turn — every thread inside an operation is a client whose move it is or waits for a
+mutex held by such a client -/
+theorem C01_progress {en cap : Bool} {s : St} (h : Reachable en cap s) {t₀ : Tid} (_ht₀ : (s.loc t₀).pc ≠ .idle) :
+    (∃ u, LibEnabled s u) ∨
+    (∀ t, (s.loc t).pc ≠ .idle →
+      ClientTurn s t ∨ (Waiting s t ∧ ∃ u, u ≠ t ∧ s.held u ≠ .none ∧ ClientTurn s u)) := by
+  by_cases hl : ∃ u, LibEnabled s u
+  · exact Or.inl hl
+  · exact Or.inr (C01_stuck_means_client_holds h (fun u hu => hl ⟨u, hu⟩))
+
+/-- … so when the library cannot move and no client keeps a handle or is inside a bracket body, every
+thread has returned -/
+theorem C01_stuck_no_client_all_returned {en cap : Bool} {s : St} (h : Reachable en cap s)
+    (hstuck : ∀ u, ¬ LibEnabled s u) (hnc : ∀ u, ¬ ClientTurn s u) (t : Tid) : (s.loc t).pc = .idle := by
+  apply Classical.byContradiction
+  intro ht
+  rcases C01_stuck_means_client_holds h hstuck t ht with h1 | ⟨_, u, _, _, h1⟩
+  · exact hnc t h1
+  · exact hnc u h1
+
+/-! Non-vacuity.  In the state after `witness` case (3) holds: thread 1 is a client keeping an exclusive
+handle, thread 2 waits and cannot acquire.  After the client destroys the handle (`witness2`) the mutex is
+free and thread 2's acquisition is enabled — case (2); `witness3` runs both sessions to the end. -/
+example : ∃ s, Reachable true false s ∧ ClientTurn s 1 ∧ Waiting s 2 ∧ s.held 1 = .X ∧
+    step s 2 (.lk .X .block true) = none ∧ ¬ LibEnabled s 1 ∧ ¬ LibEnabled s 2 := by
+  refine ⟨_, ⟨witness, rfl⟩, Or.inl ⟨by decide, Or.inl (by decide)⟩, Or.inl ⟨.X, by decide, by decide⟩, by decide,
+    by decide, sess_live_not_lib (by decide) (Or.inl (by decide)), fun h => ?_⟩
+  have := acq_block_lib (sd := .X) (by decide) (by decide) h
+  revert this; decide
+
+def witness2 : List (Tid × Ev) :=
+  witness ++ [(1, .hbegin (.destroy .a)), (1, .rel .X), (1, .hend none)]
+
+example : ∃ s, Reachable true false s ∧ (s.excl = none ∧ s.shared = []) ∧ Waiting s 2 ∧
+    (step s 2 (.lk .X .block true)).isSome = true :=
+  ⟨_, ⟨witness2, rfl⟩, by decide, Or.inl ⟨.X, by decide, by decide⟩, by decide⟩
+
+def witness3 : List (Tid × Ev) :=
+  witness2 ++ [(2, .lk .X .block true), (2, .got .a true), (1, .retSess), (2, .hbegin (.unlock .a)), (2, .rel .X),
+    (2, .hend (some false)), (2, .hbegin (.destroy .a)), (2, .hend none), (2, .retSess)]
+
+example : ∃ s, Reachable true false s ∧ (s.loc 1).pc = .idle ∧ (s.loc 2).pc = .idle ∧ s.excl = none :=
+  ⟨_, ⟨witness3, rfl⟩, by decide, by decide, by decide⟩
 
 end ConcVerif.LockFam
